@@ -287,6 +287,8 @@ func c01longCase(j run.Job, a *run.Acc) {
 func c01plan(tier string, seed int64) []run.Job {
 	var jobs []run.Job
 	jobs = append(jobs, run.Job{Family: "corpus"})
+	// grammars built late in the life of the process (parser indices beyond 2^16)
+	jobs = append(jobs, run.Job{Family: "random", Seed: seed*100000 + 96000, N: 300, P: map[string]int{"strat": 1, "maxlen": 8, "inputs": 6, "burn": 70000}})
 	for i := 0; i < 8; i++ {
 		jobs = append(jobs, run.Job{Family: "long", Seed: seed*100000 + 90000 + int64(i), N: 40})
 	}
